@@ -1543,6 +1543,9 @@ class Comparator(BinaryOperator):
         self._eval_parent_ = parent
 
         if self._id_ in sources:
+            # the answer for these bindings is the one recorded with them; the flag of the node is the answer for whatever
+            # binding was compared last, possibly by another evaluation that is consumed in between
+            self._is_false_ = not sources[self._id_].value
             yield OperationResult(sources, self._is_false_, self)
             return
 
